@@ -2,6 +2,7 @@ package main
 
 import (
 	"crypto/sha256"
+	_ "embed"
 	"fmt"
 	"go/ast"
 	"go/importer"
@@ -55,7 +56,10 @@ func init() {
 }
 
 const c19ModPrefix = "github.com/benhoyt/goawk/"
-const c19AnalysisVersion = "c19-v5"
+// the cache key includes this file, so that a change of the analysis invalidates the cache
+//
+//go:embed gen_c19.go
+var c19Self string
 
 // Foreign functions whose result is known not to alias their arguments (they copy):
 // os/exec.Command builds Args with append([]string{name}, arg...).  Emitted into the
@@ -111,7 +115,7 @@ func (m *c19Loader) Import(path string) (*types.Package, error) {
 
 func c19SourceHash(repo string) (string, error) {
 	h := sha256.New()
-	h.Write([]byte(c19AnalysisVersion))
+	h.Write([]byte(c19Self))
 	for _, d := range c19Pkgs {
 		ents, err := os.ReadDir(filepath.Join(repo, d))
 		if err != nil {
